@@ -6,4 +6,4 @@ git apply "$patch" || { echo "patch does not apply"; exit 2; }
 for p in "$@"; do
   (cd /verif && bin/check "$p" quick 2>&1 | grep -v KNOWN-FINDING | tail -1)
 done
-cd /repo && git checkout -- . && git status --short | head -3
+cd /repo && git checkout -- . && git clean -fdq -- crates && git status --short | head -3
